@@ -2,6 +2,7 @@ SPECIFICATION Spec
 CONSTANTS
   Universe = "Q"
   Known <- KnownC04
+  Slice = 0
 INVARIANT GenInv
 INVARIANT Laws
 INVARIANT LawOneWordNames
